@@ -36,6 +36,43 @@ OUTSIDE = ["cipher and hash correctness (C libraries / XOR loops): not claimed",
            "crypt filters other than V2 / AESV2 / AESV3 / Identity", "passwords longer than 33 bytes (R2-R4) / 3 bytes (R5, R6)"]
 
 
+def sym_pack(fmt, *vals):
+    """struct.pack for the standard-size integer formats (<, >, = and ! prefixes; b B h H i I l L q Q with counts), on ints or symbolic ints"""
+    import re
+    import struct
+    if not any(isinstance(v, SI) for v in vals):
+        return struct.pack(fmt, *vals)
+    m = re.fullmatch(r"([<>=!])((?:\d*[bBhHiIlLqQx])+)", fmt)
+    if not m:
+        raise symx.Unsupported("struct.pack(%r) on a symbolic int" % fmt)
+    big = m.group(1) in (">", "!")
+    sizes = {"b": 1, "B": 1, "h": 2, "H": 2, "i": 4, "I": 4, "l": 4, "L": 4, "q": 8, "Q": 8}
+    out, vals = [], list(vals)
+    for cnt, ch in re.findall(r"(\d*)([bBhHiIlLqQx])", m.group(2)):
+        for _ in range(int(cnt or 1)):
+            if ch == "x":
+                out.append(0)
+                continue
+            if not vals:
+                raise struct.error("pack expected more items for packing")
+            v, n = vals.pop(0), sizes[ch]
+            signed = ch.islower()
+            lo, hi = (-(1 << (8 * n - 1)), (1 << (8 * n - 1)) - 1) if signed else (0, (1 << (8 * n)) - 1)
+            if isinstance(v, SI):
+                if not bool(SB(z3.And(v.e >= lo, v.e <= hi))):
+                    raise struct.error("argument out of range")
+                e = z3.If(v.e < 0, v.e + (1 << (8 * n)), v.e) if signed else v.e
+                bs = [(e / 256 ** k) % 256 for k in range(n)]
+            else:
+                if not lo <= v <= hi:
+                    raise struct.error("argument out of range")
+                bs = list((v % (1 << (8 * n))).to_bytes(n, "little"))
+            out += bs[::-1] if big else bs
+    if vals:
+        raise struct.error("pack expected fewer items for packing")
+    return SBy(out)
+
+
 def _mk_handler(cls, **attrs):
     h = cls.__new__(cls)
     for k, v in attrs.items():
@@ -175,7 +212,7 @@ def h3_padding(timeout=150, part=None, **kw):
     pd.modes = types.SimpleNamespace(CBC=lambda iv: iv)
     pd.default_backend = lambda: None
     pd.md5 = lambda data: types.SimpleNamespace(digest=lambda: b"0123456789abcdef")
-    pd.struct = types.SimpleNamespace(pack=lambda fmt, v: (int(v) % 2 ** 32).to_bytes(4, "little"))
+    pd.struct = types.SimpleNamespace(pack=sym_pack)
 
     def fn(ex):
         which = ex.choice(2, "aes")              # AESV2 (128) / AESV3 (256)
@@ -208,14 +245,9 @@ def h4_keys(timeout=100, **kw):
     shims = numshim.install("pdfdocument")
     rec = {}
 
-    def py_pack(fmt, v):
-        assert fmt == "<L"
-        if isinstance(v, SI):
-            if not bool(SB(z3.And(v.e >= 0, v.e < 2 ** 32))):
-                raise ValueError("argument out of range")
-            return SBy([(v.e / 256 ** k) % 256 for k in range(4)])
-        return int(v).to_bytes(4, "little")
-    pd.struct = types.SimpleNamespace(pack=py_pack)
+    py_pack = sym_pack
+    import struct as _struct
+    pd.struct = types.SimpleNamespace(pack=py_pack, error=_struct.error)
 
     def fake_md5(data):
         rec["md5"] = data
@@ -494,13 +526,7 @@ def _install_uf(ex, pd):
         def update(self, data):
             return stream("aes_cbc", self.key, data if isinstance(data, SBy) else SByI(list(data)), self.iv)
 
-    def py_pack(fmt, v):
-        assert fmt == "<L"
-        if isinstance(v, SI):
-            if not bool(SB(z3.And(v.e >= 0, v.e < 2 ** 32))):
-                raise ValueError("argument out of range")
-            return SBy([(v.e / 256 ** k) % 256 for k in range(4)])
-        return int(v).to_bytes(4, "little")
+    py_pack = sym_pack
     xorf = z3.Function("xor8", z3.IntSort(), z3.IntSort(), z3.IntSort())
 
     def uf_xor(a, o):
@@ -515,7 +541,8 @@ def _install_uf(ex, pd):
             return SI(t, ub=8)
         raise symx.Unsupported("xor of a symbolic byte with %r" % (o,))
     SI.__xor__ = SI.__rxor__ = uf_xor
-    pd.struct = types.SimpleNamespace(pack=py_pack)
+    import struct as _struct
+    pd.struct = types.SimpleNamespace(pack=py_pack, error=_struct.error)
     pd.md5, pd.sha256, pd.Arcfour, pd.Cipher = Hash, Sha256, Arc, Ciph
     pd.algorithms = types.SimpleNamespace(AES=lambda key: key)
     pd.modes = types.SimpleNamespace(CBC=lambda iv: iv)
